@@ -6,6 +6,7 @@
 //!
 //! * `C <text>`  -> `process_incoming_text_message`
 //! * `T <n>`     -> `process_file_context` with a receive budget of n msgs (`T inf` = until the parser finished)
+//! * `GATE arm|wait|release` -> hold / observe / release the lifecycle stage before its final publication
 //! * `RESET`     -> close (if open) and start with a fresh websocket
 //! * `Q`         -> quit
 //!
@@ -226,6 +227,7 @@ pub fn run_driver() -> Result<(), Box<dyn std::error::Error>> {
         match kind {
             "Q" => break,
             "RESET" => {
+                adlt::lifecycle::verif_gate::release();
                 if fc.is_some() {
                     let r = std::panic::catch_unwind(std::panic::AssertUnwindSafe(|| {
                         process_incoming_text_message(&log, "close".to_string(), &mut fc, &mut ws)
@@ -234,6 +236,20 @@ pub fn run_driver() -> Result<(), Box<dyn std::error::Error>> {
                 }
                 fc = None;
                 ws = new_ws();
+            }
+            "GATE" => {
+                // hold / release the lifecycle stage right before its final publication (see lifecycle::verif_gate)
+                match rest {
+                    "arm" => adlt::lifecycle::verif_gate::arm(),
+                    "release" => adlt::lifecycle::verif_gate::release(),
+                    "wait" => {
+                        if !adlt::lifecycle::verif_gate::wait_reached(30_000) {
+                            panicked = true;
+                            LAST_PANIC.with(|p| *p.borrow_mut() = Some("gate|not reached within 30 s".into()));
+                        }
+                    }
+                    _ => {}
+                }
             }
             "C" => {
                 let r = std::panic::catch_unwind(std::panic::AssertUnwindSafe(|| {
@@ -272,6 +288,7 @@ pub fn run_driver() -> Result<(), Box<dyn std::error::Error>> {
         o.flush()?;
     }
     // leave cleanly: stop the threads
+    adlt::lifecycle::verif_gate::release();
     if fc.is_some() {
         let _ = std::panic::catch_unwind(std::panic::AssertUnwindSafe(|| {
             process_incoming_text_message(&log, "close".to_string(), &mut fc, &mut ws)
